@@ -286,7 +286,14 @@ func (e *Engine) shuffleModel(st *State, fr *Frame, src Term, n Term, swap Val, 
 			after := e.getSliceHeap(s2, et, li)
 			row := Select(before, sv.L[0])
 			want := Store(before, sv.L[0], Store(Store(row, Add(sv.L[1], i0), Select(row, Add(sv.L[1], j0))), Add(sv.L[1], j0), Select(row, Add(sv.L[1], i0))))
-			e.obligation(s2, "call-pre", "Shuffle.swap-is-transposition@"+pos, T(SBool, "(= %s %s)", after.S, want.S), "the function passed to Shuffle exchanges exactly elements i and j of the slice")
+			// pointwise at an arbitrary (fresh) cell: equivalent to equality of the two heaps, and quantifier- and
+			// extensionality-free for the solver
+			qb := e.ctx.Fresh("swap_qb", SInt)
+			qk := e.ctx.Fresh("swap_qk", SInt)
+			// (idx x) == x: writing the cell as off + idx(qk - off) gives quantified contracts of the swap function
+			// (pattern idx) their instance at this cell
+			cell := Add(sv.L[1], T(SInt, "(idx %s)", Sub(qk, sv.L[1]).S))
+			e.obligation(s2, "call-pre", "Shuffle.swap-is-transposition@"+pos, Eq(Select(Select(after, qb), cell), Select(Select(want, qb), cell)), "the function passed to Shuffle exchanges exactly elements i and j of the slice")
 		}
 	})
 	perm := e.sortPermute(st, sv, et, n)
